@@ -64,6 +64,10 @@ class World:
                            start=T("2021-01-01 06:00"))
         self.tr = Transport(name="tr", nodes=[n1, n2], min_cap=0.0, max_cap=3.0, efficiency=0.9)
         self.mk2 = SimpleContract(name="mk2", nodes=n2, price="q", min_cap=-4.0, max_cap=4.0)
+        from eaopack.assets import ExtendedTransport
+        self.xtake = dict(start=[T("2021-01-01")], end=[T("2021-01-05")], values=np.array([60.0]))   # values as float array (documented form)
+        self.xtr = ExtendedTransport(name="xtr", nodes=[n1, n2], min_cap=0.0, max_cap=1.0, efficiency=0.95, max_take=self.xtake,
+                                     min_take=dict(start=[T("2021-01-01")], end=[T("2021-01-05")], values=np.array([4.0])))
         self.isto = Storage("isto", nodes=ni, size=6.0, cap_in=1.0, cap_out=1.0, start_level=0.0, end_level=0.0,
                             start=T("2021-01-01"), end=T("2021-01-02 12:00"))
         self.itr = Transport(name="itr", nodes=[ni, n1], min_cap=-2.0, max_cap=2.0)
@@ -77,7 +81,7 @@ class World:
         # an asset alone at its node and active on the second day only: on the other grids that node has no dispatch at all
         n3 = Node("n3")
         self.late = SimpleContract(name="late", nodes=n3, price="p", min_cap=-1.0, max_cap=1.0, start=T("2021-01-02 06:00"), end=T("2021-01-03"))
-        self.pf = Portfolio([self.con, self.sto, self.ob, self.tr, self.mk2, self.st, self.late])
+        self.pf = Portfolio([self.con, self.sto, self.ob, self.tr, self.xtr, self.mk2, self.st, self.late])
         self.fm = SimpleContract(name="fm", nodes=n1, price="p", min_cap=-5.0, max_cap=5.0)
         self.flat = Portfolio([self.fm, self.isto, self.itr])
         self.grids = []
@@ -99,7 +103,7 @@ class World:
 
     def objects(self):
         return dict(con=self.con, sto=self.sto, tr=self.tr, mk2=self.mk2, isto=self.isto, itr=self.itr, st=self.st, pf=self.pf,
-                    fm=self.fm, flat=self.flat, capd=self.capd, taked=self.taked, P=self.P, ob=self.ob, late=self.late, orders=self.orders, orders_df=self.orders_df,
+                    fm=self.fm, flat=self.flat, capd=self.capd, taked=self.taked, P=self.P, ob=self.ob, late=self.late, xtr=self.xtr, xtake=self.xtake, orders=self.orders, orders_df=self.orders_df,
                     ctx=(self.cur, self.last, None if self.last_op is None else "op"))
 
     def key(self):
